@@ -2,7 +2,7 @@
 use std::collections::HashMap;
 use std::io::Read;
 
-use pgp::composed::{Message, MessageBuilder, PlainSessionKey, SignedSecretKey, TheRing};
+use pgp::composed::{Deserializable, Message, MessageBuilder, PlainSessionKey, SignedSecretKey, TheRing};
 use pgp::crypto::aead::{AeadAlgorithm, ChunkSize};
 use pgp::crypto::hash::HashAlgorithm;
 use pgp::crypto::sym::SymmetricKeyAlgorithm;
@@ -273,5 +273,46 @@ pub fn run(cases_path: &str, out_path: &str, _tier: &str, seed: u64) {
                 json!({"outcome": class, "wrong_plaintext": wrong_plain, "detail": r.detail()})));
         }
     });
+    // ---- value-dependent encodings of the encrypted session key: every recipient algorithm over many encryptions (an RSA ciphertext or an
+    //      ECDH shared secret starts with a zero octet about once in 256), each must still be opened by its recipient
+    {
+        let recips: Vec<(&str, bool, EncAlg)> = vec![("rsa2048 v4", false, EncAlg::Rsa2048), ("rsa2048 v6", true, EncAlg::Rsa2048), ("ecdh-cv25519 v4", false, EncAlg::EcdhCv25519), ("ecdh-p256 v4", false, EncAlg::EcdhP256), ("x25519 v6", true, EncAlg::X25519)];
+        let trials: u64 = if _tier == "thorough" { 6000 } else { 1500 };
+        for (ri, (name, v6, enc)) in recips.iter().enumerate() {
+            let Ok(cert) = gen_key(seed ^ (0x18A0 + ri as u64), *v6, if *v6 { &Alg::Ed25519 } else { &Alg::Ed25519Legacy }, Some(enc), name) else { continue };
+            let sub = cert.secret_subkeys[0].public_key();
+            let short = std::sync::atomic::AtomicU64::new(0);
+            let fails: Vec<String> = (0..trials).into_par_iter().filter_map(|t| {
+                let r = guard(|| -> Result<(), String> {
+                    let e = |x: pgp::errors::Error| x.to_string();
+                    let payload = format!("message {t}").into_bytes();
+                    let b0 = pgp::composed::MessageBuilder::from_bytes("", payload.clone());
+                    let bytes = if *v6 && t % 2 == 0 {
+                        let mut b = b0.seipd_v2(rng(seed ^ t), pgp::crypto::sym::SymmetricKeyAlgorithm::AES128, pgp::crypto::aead::AeadAlgorithm::Ocb, pgp::crypto::aead::ChunkSize::C64B);
+                        b.encrypt_to_key(rng(seed ^ 0x5151 ^ t), &sub).map_err(e)?;
+                        b.to_vec(rng(seed ^ t)).map_err(e)?
+                    } else {
+                        let mut b = b0.seipd_v1(rng(seed ^ t), pgp::crypto::sym::SymmetricKeyAlgorithm::AES128);
+                        b.encrypt_to_key(rng(seed ^ 0x5151 ^ t), &sub).map_err(e)?;
+                        b.to_vec(rng(seed ^ t)).map_err(e)?
+                    };
+                    // how long is the first encrypted value? (evidence that short ones occurred)
+                    if let Some(Ok(pgp::packet::Packet::PublicKeyEncryptedSessionKey(p))) = pgp::packet::PacketParser::new(&bytes[..]).next() {
+                        let n = PublicKeyEncryptedSessionKey::to_bytes(&p).map(|b| b.len()).unwrap_or(0);
+                        if n % 2 == 1 { short.fetch_add(1, std::sync::atomic::Ordering::Relaxed); }
+                    }
+                    let mut m = Message::from_bytes(&bytes[..]).map_err(e)?.decrypt(&Password::empty(), &cert).map_err(|x| format!("the recipient cannot open its own message: {x}"))?;
+                    let mut o = Vec::new();
+                    std::io::Read::read_to_end(&mut m, &mut o).map_err(|x| x.to_string())?;
+                    if o != payload { return Err("payload differs".into()); }
+                    Ok(())
+                });
+                if r.is_ok() { None } else { Some(format!("trial {t}: {}", r.detail())) }
+            }).collect();
+            nontrivial.fetch_add(trials, std::sync::atomic::Ordering::Relaxed);
+            sink.put(rec("c18.recipient_value_sweep", json!({"recipient": name, "trials": trials, "odd_length_pkesk_bodies": short.load(std::sync::atomic::Ordering::Relaxed)}), fails.is_empty(), "recipient_sweep",
+                json!({"outcome": if fails.is_empty() { "ok" } else { "err" }, "detail": format!("{} of {trials} encryptions not opened by the recipient; first: {:?}", fails.len(), fails.first())})));
+        }
+    }
     sink.finish(json!({"cases": cases.len(), "messages": groups.len(), "nontrivial": nontrivial.load(std::sync::atomic::Ordering::Relaxed)}));
 }
